@@ -1228,7 +1228,9 @@ void ComputeConstraintImpulsesRangeSpaceSparse (
 
   SolveConstrainedSystemRangeSpaceSparse (model, CS.H, CS.G, CS.H * QDotMinus
                                           , CS.v_plus, QDotPlus, CS.impulse, CS.K, CS.a, CS.linear_solver);
-
+  // the solver returns lambda of H qdot+ = H qdot- + G^T lambda; the impulse
+  // is defined by H (qdot+ - qdot-) + G^T impulse = 0 (cf. the direct method)
+  CS.impulse = -CS.impulse;
 }
 
 //==============================================================================
@@ -1260,6 +1262,8 @@ void ComputeConstraintImpulsesNullSpace (
   SolveConstrainedSystemNullSpace (CS.H, CS.G, CS.H * QDotMinus, CS.v_plus
                                    , QDotPlus, CS.impulse, CS.Y, CS.Z, CS.qddot_y, CS.qddot_z
                                    , CS.linear_solver);
+  // same sign convention as the direct method
+  CS.impulse = -CS.impulse;
 }
 #endif
 
